@@ -2,6 +2,7 @@
 //   order_drv --out trace --mode perms --nmax N            all permutation pairs (corr) / all small arrays (sort, median)
 //   order_drv --out trace --mode random --seed S --budget N --maxlen L
 #include "common.h"
+#include <map>
 #include <dsplib.h>
 #include <algorithm>
 #include <numeric>
@@ -81,6 +82,26 @@ static void ev_corr(Json& js, const std::vector<long>& x, const std::vector<long
         return vh::as_int(r);
     };
     bool ex = true;
+    // the same data through work buffers that are refilled in place from one call to the next (one pair per length): the
+    // coefficients are functions of the contents, wherever they live
+    {
+        static std::map<int, std::pair<arr_real, arr_real>> work;
+        auto it = work.find(n);
+        if (it == work.end()) {
+            it = work.emplace(n, std::make_pair(arr_real(n), arr_real(n))).first;
+        }
+        arr_real& wa = it->second.first;
+        arr_real& wb = it->second.second;
+        for (int i = 0; i < n; ++i) {
+            wa[i] = a[i], wb[i] = b[i];
+        }
+        double s3 = 0, k3 = 0, p3 = 0;
+        vh::outcome([&] {
+            s3 = corr(wa, wb, Correlation::Spearman), k3 = corr(wa, wb, Correlation::Kendall), p3 = corr(wa, wb, Correlation::Pearson);
+        });
+        ex = ex && (s3 == s || (std::isnan(s3) && std::isnan(s))) && (k3 == k || (std::isnan(k3) && std::isnan(k)))
+             && (p3 == p || (std::isnan(p3) && std::isnan(p)));
+    }
     const long kq = q(k, kd, &ex), sq = q(s, sd, &ex), kq2 = q(k2, kd, &ex), sq2 = q(s2, sd, &ex);
     const double ptol = 1e-12;
     const bool psym = std::fabs(p - p2) <= ptol, prange = std::fabs(p) <= 1 + ptol;
